@@ -206,7 +206,14 @@ func GenSet(rt *rapid.T, o *GenOpts, hist map[string][]model.Path) SetSpec {
 				spec.Ops = append(spec.Ops, model.Op{Kind: "update", Target: t, Path: p, Val: &v})
 				continue
 			}
-			if h := hist[t]; len(h) > 0 && rapid.IntRange(0, 2).Draw(rt, "rewrite") == 0 {
+			sib := false
+			if n := len(spec.Ops); n > 0 && spec.Ops[n-1].Kind != "delete" && spec.Ops[n-1].Target == t && rapid.IntRange(0, 2).Draw(rt, "sibling") == 0 {
+				// clients write several leaves of one container or list entry in one request
+				ld, p, sib = siblingLeaf(rt, leaves, spec.Ops[n-1].Path)
+			}
+			if sib {
+				// drawn above
+			} else if h := hist[t]; len(h) > 0 && rapid.IntRange(0, 2).Draw(rt, "rewrite") == 0 {
 				p = h[rapid.IntRange(0, len(h)-1).Draw(rt, "histpick")].Clone()
 				ld, _ = model.Lookup(model.M1, p)
 			} else {
@@ -277,6 +284,31 @@ func GenSet(rt *rapid.T, o *GenOpts, hist map[string][]model.Path) SetSpec {
 		}
 	}
 	return spec
+}
+
+// siblingLeaf draws a leaf that shares its parent node (same container, same list entry) with prev.
+func siblingLeaf(rt *rapid.T, leaves []model.LeafDef, prev model.Path) (model.LeafDef, model.Path, bool) {
+	if len(prev) < 2 {
+		return model.LeafDef{}, nil, false
+	}
+	ps := model.SchemaOf(prev)
+	i := strings.LastIndex(ps, "/")
+	if i <= 0 {
+		return model.LeafDef{}, nil, false
+	}
+	var cands []model.LeafDef
+	for _, l := range leaves {
+		if l.Schema != ps && strings.HasPrefix(l.Schema, ps[:i+1]) && !strings.Contains(l.Schema[i+1:], "/") {
+			cands = append(cands, l)
+		}
+	}
+	if len(cands) == 0 {
+		return model.LeafDef{}, nil, false
+	}
+	ld := cands[rapid.IntRange(0, len(cands)-1).Draw(rt, "sibleaf")]
+	p := prev[:len(prev)-1].Clone()
+	p = append(p, model.Elem{Name: ld.Attr()})
+	return ld, p, true
 }
 
 // commonPrefix returns how many leading elements all op paths share, leaving
